@@ -351,6 +351,67 @@ theorem parse_spec (buf : Bytes) (c : Cache) (h : Cache.parse buf = .ok c) :
       f2, f4, f6⟩
   · cases h
 
+/-- the same at any address residue (`Cache.parseAt`) -/
+theorem parseAt_spec (a : Nat) (buf : Bytes) (c : Cache) (h : Cache.parseAt a buf = .ok c) :
+    c.strings <:+ buf ∧
+    (∀ k ∈ c.classes, ∀ v ∈ k.fields, v < u32Bound) ∧
+    (∀ m ∈ c.members, ∀ v ∈ m.fields, v < u32Bound) ∧
+    (∀ m ∈ c.byParams, ∀ v ∈ m.fields, v < u32Bound) := by
+  unfold Cache.parseAt at h
+  split at h
+  · cases h
+  split at h
+  · next magic version nc nm nb sb r0 h0 =>
+    split at h
+    · cases h
+    split at h
+    · cases h
+    split at h
+    · cases h
+    split at h
+    · cases h
+    next r1 h1 =>
+    split at h
+    · cases h
+    split at h
+    · cases h
+    next classes r2 h2 =>
+    simp only at h
+    split at h
+    · cases h
+    next r3 h3 =>
+    split at h
+    · cases h
+    split at h
+    · cases h
+    next members r4 h4 =>
+    split at h
+    · cases h
+    next r5 h5 =>
+    split at h
+    · cases h
+    split at h
+    · cases h
+    next byParams r6 h6 =>
+    split at h
+    · cases h
+    next strings h7 =>
+    split at h
+    · cases h
+    simp only [Except.ok.injEq] at h
+    subst h
+    have s0 := (rdFields_spec _ _ _ _ h0).2
+    have s1 := alignSkip_suffix _ _ _ h1
+    obtain ⟨f2, s2⟩ := rdClasses_spec _ _ _ _ h2
+    have s3 := alignSkip_suffix _ _ _ h3
+    obtain ⟨f4, s4⟩ := rdMembers_spec _ _ _ _ h4
+    have s5 := alignSkip_suffix _ _ _ h5
+    obtain ⟨f6, s6⟩ := rdMembers_spec _ _ _ _ h6
+    have s7 := alignSkip_suffix _ _ _ h7
+    exact ⟨s7.trans (s6.trans (s5.trans (s4.trans (s3.trans (s2.trans (s1.trans s0)))))),
+      f2, f4, f6⟩
+  · cases h
+
 /-! ### queries -/
 
 theorem str_slice (c : Cache) (off : Nat) (s : Bytes) (h : c.str off = some s) :
